@@ -21,6 +21,7 @@ import runlayer
 import vlib
 
 PID = "C18"
+CONFIRM_BY_REPLAY = True   # a new deviation is reported only if replaying its stored case repeats it
 META = {
     "cat": "model_checking",
     "text": "Cache.tla is model-checked exhaustively for histories of up to 3 edits over 2 files (ideal key: Transparent and EntrySound hold; "
